@@ -2,7 +2,7 @@ from vdriver import Group
 META = {'level': 'other'}
 def groups(tier):
     K = dict(unit='kad_providers', harness='C06/providers.c', stub=['chunk_id_to_string', 'KademliaTable__sweep_buckets', 'KademliaTable__upsert_bucket'],
-             checks=['--bounds-check', '--pointer-check'], unwind=6, unwind_by={'same_id': 33, 'cxx_memcmp': 33, 'setup': 33, 'body_add': 33, 'body_withdraw': 33, 'KademliaTable__add_contact.1': 1, 'KademliaTable__add_contact.2': 1, 'KademliaTable__sweep_expired#0': 3, 'KademliaTable__sweep_expired#2': 3}, kind='bounded', timeout=600, defines=['CXX_FIXED_STORAGE', 'CXX_VEC_CAP=6', 'H=3'],
+             checks=['--bounds-check', '--pointer-check'], unwind=6, unwind_by={'same_id': 33, 'cxx_memcmp': 33, 'setup': 33, 'body_add': 33, 'body_withdraw': 33, 'KademliaTable__add_contact.1': 1, 'KademliaTable__add_contact.2': 1, 'KademliaTable__sweep_expired#0': 3, 'KademliaTable__sweep_expired#2': 3}, kind='bounded', timeout=1500, defines=['CXX_FIXED_STORAGE', 'CXX_VEC_CAP=6', 'H=3'],
              bound='at most 3 providers already listed for the chunk (so the 20-provider cap and its sort are never reached: unwinding assertions on the sort loops); provider ids range over 256 values (byte 0 symbolic); all deadlines, locator deadlines and clock readings symbolic')
     KD = dict(K, defines=['CXX_FIXED_STORAGE', 'CXX_VEC_CAP=6', 'H=0', 'DEADLINE_ONLY'], backend=['cvc5', 'z3', 'sat'],
               bound='no provider listed before (the deadline assignment is the first statement of add_contact and does not read the table); all TTLs 0..1e9 s and clock readings')
